@@ -10,10 +10,11 @@ Mirrors, branch by branch and with Python exceptions as values:
 * `_parse_positional_parameters`, `_parse_keyword_parameters` (typed conversion through
   models of CPython's `int(str)`, `int(str, 16)`, `float(str)`), `_check_missing_parameters`,
   `parse_parameter_strings` (defaults dictionary, dropping of foreign defaults);
-* keyword-argument binding of `Cls(**attributes)` (missing / unexpected argument → `TypeError`);
+* keyword-argument binding of `Cls(**attributes)` (missing / unexpected argument → `TypeError`; cannot
+  happen for tables aligned with their constructors, which the generated ones are);
 * the `_validate_*` helpers of the transport constructors, `_is_valid_hostname`
-  (the two regexes) and `_is_valid_ipaddress` (glibc `inet_pton` for AF_INET / AF_INET6,
-  `ValueError` on an embedded NUL);
+  (the two regexes) and `_is_valid_ipaddress` (glibc `inet_pton` for AF_INET / AF_INET6;
+  its `ValueError` on an embedded NUL is caught like `OSError`);
 * `create_transport` (dispatch on the interface name, platform branch);
 * `QMI_UsbTmcTransport._format_resources` and the renderers for the descriptor formats
   QMI itself produces.
@@ -36,7 +37,6 @@ inductive PyExc
   | descriptor   -- QMI_TransportDescriptorException
   | valueError   -- ValueError
   | typeError    -- TypeError
-  | indexError   -- IndexError
   deriving DecidableEq, Repr
 
 /-- result of a Python call: a value or the exception that escaped -/
@@ -387,14 +387,11 @@ def breakEq : Str → Option (Str × Str)
   | [] => none
   | c :: cs => if c == '=' then some ([], cs) else (breakEq cs).map (fun ab => (c :: ab.1, ab.2))
 
-/-- `s.split('=', maxsplit=2)` -/
-def splitEq2 (p : Str) : List Str :=
+/-- `s.split('=', maxsplit=1)`: one piece without `'='`, else the text before and after the *first* `'='` -/
+def splitEq (p : Str) : List Str :=
   match breakEq p with
   | none => [p]
-  | some (a, r) =>
-    match breakEq r with
-    | none => [a, r]
-    | some (b, r2) => [a, b, r2]
+  | some (a, r) => [a, r]
 
 /-- `ty(param)` for a positional parameter -/
 def convPos (ty : Ty) (tok : Str) : Res PyVal :=
@@ -450,7 +447,7 @@ def findParam (ps : List Param) (k : Str) : Option Param := ps.find? (fun p => p
 def parseKeywords (kws : List Param) : Dict → List Str → Res Dict
   | acc, [] => .ok acc
   | acc, t :: ts =>
-    match splitEq2 t with
+    match splitEq t with
     | [k, v] =>
       (match findParam kws k with
        | some p =>
@@ -458,8 +455,7 @@ def parseKeywords (kws : List Param) : Dict → List Str → Res Dict
           | .err e => .err e
           | .ok x => parseKeywords kws (dset acc k x) ts)
        | none => .err .descriptor)                 -- "Unexpected keyword"
-    | [_] => .err .descriptor                       -- `len(q) < 2` (not reachable for a token containing '=')
-    | _ => .err .valueError                         -- `k, v = q` with three pieces: escapes, it is outside the `try`
+    | _ => .err .descriptor                         -- `len(q) < 2` (not reachable for a token containing '=')
 
 def knownName (I : Iface) (k : Str) : Bool :=
   I.positionals.any (fun p => p.name = k) || I.keywords.any (fun p => p.name = k)
@@ -596,9 +592,9 @@ def numericLabel (x : Str) : Bool :=
   let b := stripOneNl x
   1 ≤ b.length && b.all isAsciiDigit
 
-/-- `_is_valid_hostname` for a non-empty string -/
+/-- `_is_valid_hostname` -/
 def isValidHostname (h : Str) : Bool :=
-  if h.length > 255 then false else
+  if h.length < 1 || h.length > 255 then false else
   let h := if h.getLast? = some '.' then h.dropLast else h
   let parts := splitOn '.' h
   if numericLabel (parts.getLast?.getD []) then false
@@ -664,13 +660,16 @@ def isIp6 (s : Str) : Bool :=
        | [] => false)
     else ip6Loop 0 none 0 s s
 
+/-- `_is_valid_ipaddress`: `inet_pton` raises `ValueError` on an embedded NUL and `OSError` on any other
+non-address; both are caught -/
+def isValidIp (h : Str) : Bool :=
+  if h.any (fun c => c.toNat == 0) then false else isIp4 h || isIp6 h
+
 /-- `QMI_SocketTransport._validate_host`:
 `if (not _is_valid_hostname(host)) and (not _is_valid_ipaddress(host)): raise …` -/
 def validateHost (h : Str) : Res Unit :=
-  if h.isEmpty then .err .indexError                     -- `hostname[-1]` on ""
-  else if isValidHostname h then .ok ()
-  else if h.any (fun c => c.toNat == 0) then .err .valueError   -- inet_pton: "embedded null character"
-  else if isIp4 h || isIp6 h then .ok ()
+  if isValidHostname h then .ok ()
+  else if isValidIp h then .ok ()
   else .err .descriptor
 
 def vPort (E : Env) (udp : Bool) : PyVal → Res Unit
